@@ -140,3 +140,28 @@ Example join_refs_conservation_refuted :
   let c := jrun jrefs1 (jinit 3 [JJoin 2 1; JJoin 1 0]) [0%nat; 0%nat; 1%nat; 1%nat] in
   pm_refs (proms c) = 2 /\ pm_unreleased (proms c) = 3 /\ jcount owes (jthreads c) = 0.
 Proof. vm_compute. repeat split; reflexivity. Qed.
+
+(* ---- generic facts about jcount *)
+Lemma jcount_nonneg : forall f l, 0 <= jcount f l.
+Proof. induction l; cbn [jcount]; [lia|]. destruct (f a); lia. Qed.
+
+Lemma jcount_pos : forall f l, 0 < jcount f l -> exists t th, nth_error l t = Some th /\ f th = true.
+Proof.
+  induction l as [|a l IH]; cbn [jcount]; intros H; [lia|].
+  destruct (f a) eqn:E.
+  - exists 0%nat, a. auto.
+  - destruct (IH ltac:(lia)) as [t [th [H1 H2]]]. exists (S t), th. auto.
+Qed.
+
+Lemma jcount_mem : forall f l t th, nth_error l t = Some th -> f th = true -> 0 < jcount f l.
+Proof.
+  induction l as [|a l IH]; intros t th H Hf; destruct t; cbn [jcount nth_error] in *; try discriminate.
+  - inversion H; subst. rewrite Hf. pose proof (jcount_nonneg f l). lia.
+  - pose proof (IH t th H Hf). destruct (f a); lia.
+Qed.
+
+Lemma jcount_init : forall f ops, (forall o, f (mk_jthread o) = false) -> jcount f (map mk_jthread ops) = 0.
+Proof. induction ops; cbn [jcount map]; intros H; auto. rewrite H, IHops; auto. Qed.
+
+Ltac thr_simp Hth :=
+  repeat progress (autorewrite with jc_simp); rewrite ?(jcount_upd _ _ _ _ _ Hth).
